@@ -19,7 +19,7 @@ CHECKS = {
          "An iterator agreeing with the model for 64 steps on a longer interval is accepted without being run to its end.",
          "DESIGN.md §4 C19"),
  "C10": ("explicit-state enumeration of all short New/Set histories + rapid long random histories; chain-of-maps reference model read out after every step",
-         "Exploration: every history of length <=4 (quick: 3) over <=4 contexts, 3 keys (one a built-in helper name), values {1,2,nil} and 6 root constructors is executed against the real Context and a reference model, comparing Value and Has for every (context,key) pair after every step; plus thousands of random histories of up to 300 operations.",
+         "Exploration: every history of length <=5 (quick: 4) over <=4 contexts, 3 keys (one a built-in helper name), values {1,2,nil} and 6 root constructors is executed against the real Context and a reference model, comparing Value and Has for every (context,key) pair after every step; plus thousands of random histories of up to 300 operations.",
          "Sequential histories only; functions compared by code pointer.",
          "DESIGN.md §4 C10"),
 }
